@@ -12,7 +12,9 @@ using namespace Qentem;
 template <typename C>
 static std::vector<std::basic_string<C>> all_strings(int maxlen) {
     std::vector<std::basic_string<C>> v;
-    const C                            units[4] = {C('a'), C('b'), C(0x01), C(0xE9)}; // 0xE9: negative as a plain char
+    // 0xE9: negative as a plain char. Wider units have no sign problem; there the fourth unit lies above 0xFF (0xFFFF) and
+    // has the low byte (low half) of 'a', so an order that looks at a truncated unit contradicts itself
+    const C units[4] = {C('a'), C('b'), C(0x01), (sizeof(C) == 1) ? C(0xE9) : ((sizeof(C) == 2) ? C(0x161) : C(0x10061))};
     v.push_back({});
     size_t start = 0;
     for (int l = 1; l <= maxlen; l++) {
@@ -30,7 +32,9 @@ template <typename C>
 static std::string sshow(const std::basic_string<C> &s) {
     std::string o = "\"";
     for (C c : s) {
-        o += (c == 1) ? std::string("\\1") : ((unsigned)c == 0xE9 || (int)c == -23 ? std::string("\\xE9") : std::string(1, char(c)));
+        o += (c == 1) ? std::string("\\1")
+                      : ((unsigned)c == 0xE9 || (int)c == -23 ? std::string("\\xE9")
+                                                              : ((unsigned)c == 0x161 ? std::string("\\u0161") : ((unsigned)c == 0x10061 ? std::string("\\U00010061") : std::string(1, char(c)))));
     }
     return o + "\"";
 }
@@ -475,7 +479,7 @@ int main(int argc, char **argv) {
     return vx::standard_main(argc, argv, [](const vx::Args &) {
         vx::Plan plan;
         plan.engine = "langx";
-        plan.rule = "all ordered pairs and triples of the 341 strings of length <=4 over {a,b,0x01,0xE9} through String, StringView, the const C* "
+        plan.rule = "all ordered pairs and triples of the 341 strings of length <=4 over {a,b,0x01,0xE9 (8-bit) / 0x161 (16-bit) / 0x10061 (32-bit units)} through String, StringView, the const C* "
                     "overloads and StringUtils::IsLess/IsGreater in char, char16_t, char32_t (reference: lexicographic by unit, prefix first); "
                     "all pairs and triples of 36 values of every kind incl. pointer-to-value (trichotomy, <=/>= unions, transitivity, magnitude); "
                     "every array of length <=5 over 4 values (duplicates, prefix chain) through Array<int>, Array<String>, Value array, "
